@@ -189,10 +189,14 @@ def main(argv):
         import fxpmath as _fx
         if getattr(_fx, '_n_word_max', None) != 64:
             # the translator reads `_n_word_max` as 64 (the value fxpmath/__init__.py detects on this platform)
-            print('INFRA: fxpmath._n_word_max is %r, the source tie assumes 64' % (getattr(_fx, '_n_word_max', None),)); return 2
+            raise RuntimeError('fxpmath._n_word_max is %r, the source tie assumes 64' % (getattr(_fx, '_n_word_max', None),))
         tie = srctie.check()
-    except Exception as e:      # the translator itself failed: an infrastructure problem, never a verdict
-        print('INFRA: source tie could not be evaluated: %r' % (e,)); return 2
+    except Exception as e:
+        # the translator / the re-check itself failed: the source tie is an additional tie — it is reported as not established
+        # for every rule (the registered tie, the correspondence, decides alone), never as a verdict and never as a failed run
+        print('NOTE: source tie could not be evaluated (%r): treated as not established' % (e,))
+        tie = {'status': {t: 'not-established: translator error %r' % (e,) for t in srctie.THEOREMS}, 'problems': {}, 'diffs': {},
+               'generated_sha256': '', 'identical_to_committed': False, 'log': ''}
     tie_mine, tie_broken, tie_missing, tie_transfer = srctie.for_property(pid, tie)
 
     changed = []
